@@ -684,8 +684,8 @@ class Gridder(GeospatialGrid):
         slopes, intercepts = calculate_line_parameters(lats, lons)
 
         # Get the indices of the grid cells where trajectory points are located
-        lat_grid_indices = np.searchsorted(self.grid_latitudes, lats) - 1
-        lon_grid_indices = np.searchsorted(self.grid_longitudes, lons) - 1
+        lat_grid_indices = grid_cell_indices(self.grid_latitudes, lats)
+        lon_grid_indices = grid_cell_indices(self.grid_longitudes, lons)
 
         # Get index range for each trajectory segment
         lat_index_ranges = np.column_stack(
@@ -869,11 +869,11 @@ class Gridder(GeospatialGrid):
         ) / 2
 
         # lat and lon indices of the gridcells where midpoints are located
-        midpoint_lat_indices = np.searchsorted(self.grid_latitudes, midpoints_lats) - 1
+        midpoint_lat_indices = grid_cell_indices(self.grid_latitudes, midpoints_lats)
         midpoint_lat_indices = np.where(
             np.isnan(midpoints_lats), np.nan, midpoint_lat_indices
         )
-        midpoint_lon_indices = np.searchsorted(self.grid_longitudes, midpoints_lons) - 1
+        midpoint_lon_indices = grid_cell_indices(self.grid_longitudes, midpoints_lons)
         midpoint_lon_indices = np.where(
             np.isnan(midpoints_lons), np.nan, midpoint_lon_indices
         )
@@ -903,22 +903,22 @@ class Gridder(GeospatialGrid):
     def _trajectory_time_grid_indices(self, times: NDArray) -> NDArray:
         if self.grid_times is None:
             raise ValueError("No time grid")
-        return (np.searchsorted(self.grid_times, times) - 1).astype(int)
+        return grid_cell_indices(self.grid_times, times).astype(int)
 
     def _trajectory_altitude_grid_indices(self, altitudes: NDArray) -> NDArray:
         if self.grid_altitudes is None:
             raise ValueError("No altitude grid")
-        return (np.searchsorted(self.grid_altitudes, altitudes) - 1).astype(int)
+        return grid_cell_indices(self.grid_altitudes, altitudes).astype(int)
 
     def _trajectory_segment_time_grid_indices(self, times: NDArray) -> NDArray:
         if self.grid_times is None:
             raise ValueError("No time grid")
-        return (np.searchsorted(self.grid_times, times) - 1)[:-1]
+        return grid_cell_indices(self.grid_times, times)[:-1]
 
     def _trajectory_segment_altitude_grid_indices(self, altitudes: NDArray) -> NDArray:
         if self.grid_altitudes is None:
             raise ValueError("No altitude grid")
-        return (np.searchsorted(self.grid_altitudes, altitudes) - 1)[:-1]
+        return grid_cell_indices(self.grid_altitudes, altitudes)[:-1]
 
     def _cell_idxs_touched_by_trajectory_with_state_and_integrated_vars(
         self,
@@ -1383,6 +1383,16 @@ class Gridder(GeospatialGrid):
                 state_variable_values,
                 integrated_variable_values,
             )
+
+
+def grid_cell_indices(grid_lines: NDArray, values: FloatOrNDArray) -> NDArray:
+    """Indices of the grid cells that contain the given values.
+
+    Cell ``i`` covers ``(grid_lines[i], grid_lines[i + 1]]`` and the last cell
+    is open-ended. A value on the first grid line belongs to the first cell
+    (it must not wrap around to the last one).
+    """
+    return np.maximum(np.searchsorted(grid_lines, values) - 1, 0)
 
 
 def great_circle_distance(
